@@ -8,7 +8,7 @@ import types
 import builtins
 from . import numpy_shim as np
 from .numpy_shim import ndarray, _cint
-from ..core import Unmodelled, OOBFault
+from ..core import Unmodelled, OOBFault, PurityFault
 from ..values import Q, is_sym, to_real, Poison, NaN
 
 
@@ -32,6 +32,20 @@ class spmatrix:
         self.__dict__.update(st)
         self.has_sorted_indices = False
         self.has_canonical_format = False
+        self._frozen = None
+
+    def _freeze(self, name="matrix"):
+        """purity monitor: the matrix belongs to the caller; an in-place change of its structure or values is a fault"""
+        self._frozen = name
+        for a in ("data", "indices", "indptr", "row", "col"):
+            v = self.__dict__.get(a)
+            if isinstance(v, ndarray):
+                np.freeze(v, "%s.%s" % (name, a))
+        return self
+
+    def _mutating(self, what):
+        if getattr(self, "_frozen", None):
+            raise PurityFault("%s on caller-owned sparse matrix %s" % (what, self._frozen))
 
     # ------------------------------------------------------------------ basics
     @property
@@ -171,6 +185,9 @@ class spmatrix:
     # --------------------------------------------------------- in-place tidy
     def sum_duplicates(self):
         if self.format == "coo":
+            t0 = self._triples()
+            if len(set((r, c) for r, c, _ in t0)) != len(t0) or [(r, c) for r, c, _ in t0] != builtins.sorted((r, c) for r, c, _ in t0):
+                self._mutating("sum_duplicates")
             acc, order = self._summed(self._triples())
             keys = builtins.sorted(order, key=lambda k: (k[1], k[0]))  # scipy sorts by (col, row) via lexsort((row, col))? result order is row-major
             keys = builtins.sorted(order)
@@ -179,6 +196,7 @@ class spmatrix:
             self.has_canonical_format = True
             return
         if self.format in ("csr", "csc"):
+            self._mutating("sum_duplicates")
             n = (self.tocoo().tocsr() if self.format == "csr" else self.tocoo().tocsc())
             self.data, self.indices, self.indptr = n.data, n.indices, n.indptr
             self.has_sorted_indices = True
@@ -189,6 +207,8 @@ class spmatrix:
     def eliminate_zeros(self):
         if self.format == "coo":
             keep = [i for i, v in enumerate(self.data._flat()) if bool(v != 0)]
+            if len(keep) != self.data.shape[0]:
+                self._mutating("eliminate_zeros")
             self.row = self.row[keep] if keep else np.zeros(0, self.row.dtype)
             self.col = self.col[keep] if keep else np.zeros(0, self.col.dtype)
             self.data = self.data[keep] if keep else np.zeros(0, self.data.dtype)
@@ -204,6 +224,8 @@ class spmatrix:
                         nidx.append(idx[k])
                         ndat.append(dat[k])
                 nptr.append(len(nidx))
+            if len(nidx) != len(idx):
+                self._mutating("eliminate_zeros")
             self.indices = ndarray._from_flat(nidx, (len(nidx),), self.indices.dtype)
             self.data = ndarray._from_flat(ndat, (len(ndat),), self.data.dtype)
             self.indptr = ndarray._from_flat(nptr, (len(nptr),), self.indptr.dtype)
@@ -221,6 +243,8 @@ class spmatrix:
             seg = builtins.sorted(range(ptr[i], ptr[i + 1]), key=lambda k: idx[k])
             nidx.extend(idx[k] for k in seg)
             ndat.extend(dat[k] for k in seg)
+        if nidx != idx:
+            self._mutating("sort_indices")
         self.indices = ndarray._from_flat(nidx, (len(nidx),), self.indices.dtype)
         self.data = ndarray._from_flat(ndat, (len(ndat),), self.data.dtype)
         self.has_sorted_indices = True
@@ -237,6 +261,8 @@ class spmatrix:
         if len(shape) == 1:
             shape = shape[0]
         M, N = int(shape[0]), int(shape[1])
+        if (M, N) != self._shape:
+            self._mutating("resize")
         t = [(r, c, v) for r, c, v in self._triples() if r < M and c < N]
         n = _mk(self.format, t, (M, N), self.dtype)
         self.__dict__.update(n.__dict__)
@@ -447,6 +473,7 @@ class spmatrix:
     def __setitem__(self, key, v):
         if self.format != "lil":
             raise Unmodelled("sparse setitem on " + self.format)
+        self._mutating("item assignment")
         r, c = key
         r = np._cidx(r, self._shape[0])
         c = np._cidx(c, self._shape[1])
